@@ -1,11 +1,12 @@
 (* C08 — Optimization terminates and is idempotent.
    Rule-measure theorems for the modelled rewrite rules (theories/ExprRules.v): the linear
-   interpretation [mu] ([Slice](x) = 3x, [Transpose](x) = [Rechunk](x) = [ExpandDims](x) = x + 1,
-   [Elemwise](xs) = sum xs + 1, leaves 1) is strictly decreased by every rule and is strictly
+   interpretation [mu] ([Slice](x) = 3x, [Rechunk](x) = 2x + 1, [Transpose](x) = [ExpandDims](x) = [BroadcastTo](x) = x + 1,
+   [Elemwise](x1..xn) = sum xi + n + 1, [Concatenate](xs) = [Stack](xs) = sum xs + 1, leaves (opaque nodes, reads, arange,
+   ones/zeros/full) 1) is strictly decreased by every rule and is strictly
    monotone in every child, so any sequence of applications of these rules, at any positions of an
    expression, has length at most mu of the initial expression: simplification with these rules
    terminates, and at its fixpoint no rule applies (a second pass changes nothing). *)
-From DA Require Import PyBase Slicing NdArray ExprRules ExprRulesFacts.
+From DA Require Import PyBase Slicing NdArray ExprRules ExprRulesFacts ExprRulesFacts2.
 Open Scope Z_scope.
 
 Theorem C08_rules_decrease_measure :
@@ -14,10 +15,14 @@ Theorem C08_rules_decrease_measure :
    rule_slice_elemwise before = Some after \/ rule_slice_transpose before = Some after \/
    rule_slice_arange before = Some after \/ rule_slice_expand_dims before = Some after \/
    rule_transpose_transpose before = Some after \/ rule_transpose_identity before = Some after \/
-   rule_rechunk_rechunk before = Some after \/ rule_rechunk_noop before = Some after) ->
+   rule_rechunk_rechunk before = Some after \/ rule_rechunk_noop before = Some after \/
+   rule_slice_concat before = Some after \/ rule_slice_stack before = Some after \/
+   rule_slice_full before = Some after \/ rule_slice_broadcast_to before = Some after \/
+   rule_rechunk_elemwise before = Some after \/ rule_rechunk_fromarray before = Some after \/
+   rule_rechunk_expand_dims before = Some after \/ rule_rechunk_transpose before = Some after) ->
   (mu after < mu before)%nat.
 Proof.
-  intros before after H. destruct H as [H|[H|[H|[H|[H|[H|[H|[H|[H|H]]]]]]]]].
+  intros before after H. destruct H as [H|[H|[H|[H|[H|[H|[H|[H|[H|[H|[H|[H|[H|[H|[H|[H|[H|H]]]]]]]]]]]]]]]]].
   - apply rule_slice_identity_mu. exact H.
   - apply rule_slice_slice_mu. exact H.
   - apply rule_slice_elemwise_mu. exact H.
@@ -28,7 +33,27 @@ Proof.
   - apply rule_transpose_identity_mu. exact H.
   - apply rule_rechunk_rechunk_mu. exact H.
   - apply rule_rechunk_noop_mu. exact H.
+  - apply rule_slice_concat_mu. exact H.
+  - apply rule_slice_stack_mu. exact H.
+  - apply rule_slice_full_mu. exact H.
+  - apply rule_slice_broadcast_to_mu. exact H.
+  - apply rule_rechunk_elemwise_mu. exact H.
+  - apply rule_rechunk_fromarray_mu. exact H.
+  - apply rule_rechunk_expand_dims_mu. exact H.
+  - apply rule_rechunk_transpose_mu. exact H.
 Qed.
+
+(* The one modelled simplify rule that is NOT measure-decreasing: the pushdown of a rechunk through a concatenation may leave
+   a residual Rechunk above the new Concatenate (target chunks straddling a seam); the implementation stops it with a
+   semantic fixpoint test (every part already holds its share of the target: rechunk_through_concat declines), not a
+   syntactic one. *)
+Example C08_rechunk_concat_residual :
+  let a := ESource (SBase 1 [7]) [[2; 5]] None true 8 0 in let b := ELeaf 2 [2] [[2]] in
+  let before := ERechunk (EConcat a 0 [b]) 0 [[2; 3; 4]] 0 false false in
+  let after := ERechunk (EConcat (ERechunk a 0 [[2; 3; 2]] 0 false false) 0 [b]) 0 [[2; 3; 4]] 0 false false in
+  rechunk_through_concat before = Some after /\ mu before = 7%nat /\ mu after = 11%nat /\
+  rechunk_through_concat after = None.
+Proof. vm_compute. repeat split; reflexivity. Qed.
 
 (* closure under contexts: a decrease in a child is a decrease of the parent *)
 Theorem C08_measure_monotone_unary :
@@ -37,13 +62,22 @@ Theorem C08_measure_monotone_unary :
   (forall axes, mu (ETranspose e' axes) < mu (ETranspose e axes))%nat /\
   (forall s c p b pp, mu (ERechunk e' s c p b pp) < mu (ERechunk e s c p b pp))%nat /\
   (forall axes, mu (EExpandDims e' axes) < mu (EExpandDims e axes))%nat /\
-  (forall shp, mu (EBroadcastTo e' shp) < mu (EBroadcastTo e shp))%nat.
+  (forall shp c, mu (EBroadcastTo e' shp c) < mu (EBroadcastTo e shp c))%nat /\
+  (forall c p, mu (ETasksRechunk e' c p) < mu (ETasksRechunk e c p))%nat.
 Proof. exact mu_monotone_unary. Qed.
 
 Theorem C08_measure_monotone_elemwise :
   forall op l1 e e' l2, (mu e' < mu e)%nat ->
   (mu (EElemwise op (l1 ++ e' :: l2)) < mu (EElemwise op (l1 ++ e :: l2)))%nat.
 Proof. exact mu_monotone_elemwise. Qed.
+
+Theorem C08_measure_monotone_concat_stack :
+  forall e e', (mu e' < mu e)%nat ->
+  (forall axis rest, mu (EConcat e' axis rest) < mu (EConcat e axis rest))%nat /\
+  (forall a axis l1 l2, mu (EConcat a axis (l1 ++ e' :: l2)) < mu (EConcat a axis (l1 ++ e :: l2)))%nat /\
+  (forall axis rest, mu (EStack e' axis rest) < mu (EStack e axis rest))%nat /\
+  (forall a axis l1 l2, mu (EStack a axis (l1 ++ e' :: l2)) < mu (EStack a axis (l1 ++ e :: l2)))%nat.
+Proof. exact mu_monotone_concat. Qed.
 
 (* the measure is positive: at most (mu e - 1) rule applications from e *)
 Theorem C08_measure_positive : forall e, (1 <= mu e)%nat.
@@ -52,10 +86,17 @@ Proof. exact mu_pos. Qed.
 Example C08_measure_ex :
   let x := ELeaf 1 [4; 3] [[4]; [3]] in let y := ELeaf 2 [3] [[3]] in
   let before := ESlice (EElemwise 1 [x; y]) [ISlice (mkslice (Some 1) None None); IInt 0] true in
-  exists after, rule_slice_elemwise before = Some after /\ mu before = 9%nat /\ mu after = 7%nat.
+  exists after, rule_slice_elemwise before = Some after /\ mu before = 15%nat /\ mu after = 9%nat.
+Proof. eexists. vm_compute. repeat split; reflexivity. Qed.
+
+Example C08_measure_concat_ex :
+  let x := ELeaf 1 [4; 3] [[4]; [3]] in let y := ELeaf 2 [5; 3] [[2; 3]; [3]] in let z := ELeaf 3 [2; 3] [[2]; [3]] in
+  let before := ESlice (EConcat x 0 [y; z]) [ISlice (mkslice (Some 3) (Some 8) None); ISlice colon] true in
+  exists after, rule_slice_concat before = Some after /\ mu before = 12%nat /\ mu after = 7%nat.
 Proof. eexists. vm_compute. repeat split; reflexivity. Qed.
 
 Print Assumptions C08_rules_decrease_measure.
 Print Assumptions C08_measure_monotone_unary.
 Print Assumptions C08_measure_monotone_elemwise.
 Print Assumptions C08_measure_positive.
+Print Assumptions C08_measure_monotone_concat_stack.
